@@ -59,14 +59,19 @@ def run(ctx):
                 '(6-36 byte inputs, random schedules) validated by TLC.')
     ctx.assumptions += [
         'RS menu: newline, one byte (a, 0xFF), "", one multi-byte character (e-acute), regexes ab+ a|ab b*a \\n+ ab [ab]a '
-        '(thorough and the random walks add aab|b, abbb|b, x|\\r?\\n, ";", paragraph mode with CR); alphabets of 3-4 bytes chosen per RS',
+        '(thorough and the random walks add aab|b, abbb|b, x|\\r?\\n, ";"; paragraph mode with CR also in quick); alphabets of 3-4 bytes chosen per RS',
         'RT is compared with the specification only for a regular-expression RS (the matched text, empty after an unterminated '
         'last record); in the other modes RT is only required to be the same under every delivery schedule',
         'paragraph mode with carriage returns in the input: records compared across schedules only (the statement does not say '
         'how CR is treated there); regexes that can match the empty string and anchors are not generated',
         'the 64 KiB placement relies on the prefix law Records(zz.. + input) = first record lengthened, checked by TLC for a '
         '2-byte filler and extrapolated to 65536-j bytes',
-        'one input stream (stdin); RS is set in BEGIN and not changed while reading',
+        'inputs built from blocks (a run of 9-14 equal bytes is one block) for a+b, ab+c, \\n-+\\n, ab+, "" and "\\n": separators and '
+        'records far longer than the pattern text; reduced schedule set (whole, 1-byte, every single split, 8 random)',
+        'RS assigned while reading: only from a regular-expression RS (ab, ab+, [ab]a, x|\\n) to "\\n", one character or another regex, '
+        'in the action of record 1 or 2, alphabets without CR; an assignment while a newline/one-byte/paragraph splitter is active '
+        '(which the implementation applies from the next input on) is not generated',
+        'one input stream (stdin)',
     ]
     import os
     ctx.build()
@@ -83,6 +88,16 @@ def run(ctx):
     if not q:
         gen2 = ctx.cfg('Gen_RecordReader', name='Gen_RecordReader_extra', constants={'MaxLen': 6, 'EmitMin': 0, 'Sel': '"extra"'})
         ctx.tlc('Gen_RecordReader', gen2, capture='cases.ndjson', timeout=1500, heap='8g')
+    # paragraph mode with carriage returns (records compared across schedules), separators much longer than the pattern
+    # text (inputs built from blocks), and RS assigned while the input is being read
+    gcr = ctx.cfg('Gen_RecordReader', name='Gen_RecordReader_paracr', constants={'MaxLen': 7 if q else 9, 'EmitMin': 0, 'Sel': '"para-cr"'})
+    ctx.tlc('Gen_RecordReader', gcr, capture='cases.ndjson', timeout=1500, heap='8g')
+    glong = ctx.cfg('Gen_RecordReader', name='Gen_RecordReader_long', constants={'MaxLen': 4 if q else 5, 'EmitMin': 0, 'Sel': '"long"'})
+    ctx.tlc('Gen_RecordReader', glong, capture='cases.ndjson', timeout=1500, heap='8g')
+    swc = {'MaxLen': 5 if q else 7, 'Afters': '{1, 2}'}
+    if not os.environ.get('VERIF_SKIP_MODEL'):
+        ctx.tlc('MC_RecordReaderSwitch', ctx.cfg('MC_RecordReaderSwitch', constants=swc), timeout=1500, heap='8g')
+    ctx.tlc('Gen_RecordReaderSwitch', ctx.cfg('Gen_RecordReaderSwitch', constants=swc), capture='cases.ndjson', timeout=1500, heap='8g')
     # longer inputs from random walks (reduced schedule set)
     sim = ctx.cfg('Gen_RecordReader', name='Gen_RecordReader_sim',
                   constants={'MaxLen': 20 if q else 40, 'EmitMin': 18 if q else 30, 'Sel': '"all"'})
@@ -93,9 +108,9 @@ def run(ctx):
     # 3. code -> spec
     ntr = 150 if q else 2000
     ctx.harness(['C07', 'record', '-seed', str(ctx.seed), '-n', str(ntr), '-out', ctx.path('trace.ndjson')])
-    # traces of the RS entries with a listed finding (a match that can grow) are validated apart, so that the rest
+    # traces of the RS entry with a listed finding (a match that could start earlier) are validated apart, so that the rest
     # is expected to be accepted completely and the binding self-test of the trace direction always runs
-    growing = {'ab+', 'a|ab', 'b*a', 'nl+', 'aab|b', 'x|cr?nl', 'abbb|b'}
+    growing = {'abbb|b'}
     split_traces(ctx, 'trace.ndjson', lambda st: st['name'] in growing, 'trace_a.ndjson', 'trace_b.ndjson')
     rejects = ctx.validate_traces('Trace_RecordReader', 'Trace_RecordReader', 'trace_a.ndjson', label='trace-recordreader',
                                   corrupt_event=corrupt_event, selftest=True)
